@@ -140,6 +140,8 @@ def build(case):
 	else:
 		req = Request()
 		req.method = 'GET'
+		if seed % 3 == 0:
+			req.protocol = (1, 0)      # the request that is answered was HTTP/1.0: the response keeps the version its sender gave it
 		m = Response()
 		m.status = status
 		if reason is not None:
@@ -278,10 +280,62 @@ def reused_message_oracle(pieces):
 	return None
 
 
+_once = []
+
+
+def charset_scenario():
+	"""early in the run: one message whose text body is sent as ISO-8859-1 (chosen through the public setter body.encoding), then a
+	message declared UTF-8 with the same text - each is read back as the octets of ITS charset (what the first did must not show in the second)"""
+	from httoop import Request, Response
+	from httoop.client import ClientStateMachine
+	from httoop.server import ServerStateMachine
+	from httoop.semantic.request import ComposedRequest
+	from httoop.semantic.response import ComposedResponse
+	text = u'Gr\xfc\xdfe aus K\xf6ln'
+	resp = Response(200)
+	resp.body.encoding = 'ISO8859-1'
+	resp.body = text
+	get = Request('GET', '/')
+	c = ComposedResponse(resp, get)
+	c.prepare()
+	sm = ClientStateMachine()
+	sm.request = get
+	out = list(sm.parse(b''.join(c)))
+	if len(out) != 1 or bytes(out[0].body) != text.encode('iso8859-1'):
+		return 'a text body sent as ISO-8859-1 (body.encoding) is read back as %r' % ([bytes(o.body) for o in out],)
+	for cs in ('UTF-8', 'utf-8'):
+		req = Request('POST', '/g', {'Host': 'example.com', 'Content-Type': 'text/plain; charset=%s' % cs})
+		req.body.mimetype = 'text/plain; charset=%s' % cs
+		req.body = text
+		c = ComposedRequest(req)
+		c.prepare()
+		out = [x[0] for x in ServerStateMachine('http', 'example.com', 80).parse(b''.join(c))]
+		if len(out) != 1 or bytes(out[0].body) != text.encode('utf-8'):
+			return 'after a message in ISO-8859-1, a text body declared %s is read back as %r' % (cs, [bytes(o.body) for o in out])
+	resp = Response(200)
+	resp.body = text
+	c = ComposedResponse(resp, get)
+	c.prepare()
+	sm = ClientStateMachine()
+	sm.request = get
+	out = list(sm.parse(b''.join(c)))
+	if len(out) != 1 or bytes(out[0].body) != text.encode('utf-8'):
+		return 'after a message in ISO-8859-1, a response with a text body and the default charset is read back as %r' % ([bytes(o.body) for o in out],)
+	return None
+
+
 def oracle(case):
 	_, kind, method, segs, query, status, reason, version, fields, source, pieces, chunked, coding, seed = case
 	from httoop.client import ClientStateMachine
 	from httoop.server import ServerStateMachine
+	if not _once:
+		_once.append(1)
+		try:
+			r0 = charset_scenario()
+		except Exception as e:
+			r0 = 'the charset scenario raised %s: %s' % (exc_name(e), e)
+		if r0:
+			return {'what': r0, 'case': describe(case), 'finding': None}
 	if seed % 9 == 0 and source in ('list', 'bytes'):
 		try:
 			r0 = reused_message_oracle(pieces)
